@@ -39,6 +39,12 @@ var solvers = []solverSpec{
 }
 
 func (tr *fnTrans) queryText(o *Obligation, wantModel bool) string {
+	return tr.queryText2(o, wantModel, false)
+}
+
+// queryText2 with relaxed=true drops every quantified assertion: a weaker hypothesis set whose
+// models are only candidate counterexamples (they are validated by replay on the real code).
+func (tr *fnTrans) queryText2(o *Obligation, wantModel bool, relaxed bool) string {
 	var sb strings.Builder
 	v := tr.v
 	if wantModel {
@@ -56,23 +62,45 @@ func (tr *fnTrans) queryText(o *Obligation, wantModel bool) string {
 	if err != nil {
 		sb.WriteString("; prelude error: " + err.Error() + "\n")
 	}
+	// module texts, with "..." string literals replaced by declared constants
+	var modText strings.Builder
 	for _, m := range mods {
 		if m == "core" {
-			sb.WriteString(v.prelude.Mods[m].Text)
-			sb.WriteString("\n")
-			for _, d := range v.opaqueDecls {
-				sb.WriteString(d + "\n")
-			}
-			for _, d := range v.structDecls {
-				sb.WriteString(d + "\n")
-			}
-			for _, n := range tr.mapOrder {
-				sb.WriteString(fmt.Sprintf("(declare-const %s %s)\n", tr.heapEntry(n), heapSortName(tr.maps[n])))
-			}
 			continue
 		}
-		sb.WriteString(v.prelude.Mods[m].Text)
-		sb.WriteString("\n")
+		mt := replaceLits(v.prelude.Mods[m].Text, tr)
+		if relaxed {
+			mt = stripQuantified(mt)
+		}
+		modText.WriteString(mt)
+		modText.WriteString("\n")
+	}
+	coreText := v.prelude.Mods["core"].Text
+	if relaxed {
+		coreText = stripQuantified(coreText)
+	}
+	sb.WriteString(coreText)
+	sb.WriteString("\n")
+	for _, d := range v.opaqueDecls {
+		if relaxed {
+			d = stripQuantified(d)
+		}
+		sb.WriteString(d + "\n")
+	}
+	for _, d := range v.structDecls {
+		sb.WriteString(d + "\n")
+	}
+	for _, n := range tr.mapOrder {
+		hi := tr.maps[n]
+		sb.WriteString(fmt.Sprintf("(declare-const %s %s)\n", tr.heapEntry(n), heapSortName(hi)))
+		if hi.isArr {
+			// at_<sort>(heap, slice, k): the k-th element of a slice; every read of a slice element is an `at` term
+			at := "at_" + hi.elem.Tag()
+			sb.WriteString(fmt.Sprintf("(declare-fun %s (%s Slice Int) %s)\n", at, heapSortName(hi), hi.elem.Name))
+			if !relaxed {
+				sb.WriteString(fmt.Sprintf("(assert (forall ((h %s) (s Slice) (k Int)) (! (= (%s h s k) (select (select h (sarr s)) (+ (soff s) k))) :pattern ((%s h s k)))))\n", heapSortName(hi), at, at))
+			}
+		}
 	}
 	if len(tr.strOrder) > 0 {
 		all := []string{"str_empty"}
@@ -88,7 +116,11 @@ func (tr *fnTrans) queryText(o *Obligation, wantModel bool) string {
 		}
 		sb.WriteString("(assert (distinct " + strings.Join(all, " ") + "))\n")
 	}
+	sb.WriteString(modText.String())
 	for _, it := range tr.items[:o.Pos] {
+		if relaxed && it.isHyp && (strings.Contains(it.text, "(forall ") || strings.Contains(it.text, "(exists ")) {
+			continue
+		}
 		sb.WriteString(it.text)
 		sb.WriteString("\n")
 	}
@@ -136,15 +168,23 @@ func runSolver(ctx context.Context, sp solverSpec, file string, timeoutS int) So
 	_ = cmd.Run()
 	el := time.Since(t0).Seconds()
 	text := out.String()
-	first := strings.TrimSpace(strings.SplitN(text, "\n", 2)[0])
+	first := ""
+	for _, ln := range strings.Split(text, "\n") {
+		ln = strings.TrimSpace(ln)
+		if ln == "" || strings.HasPrefix(ln, "WARNING") || strings.HasPrefix(ln, "(warning") {
+			continue
+		}
+		first = ln
+		break
+	}
 	res := SolveResult{Solver: sp.name, TimeS: el}
 	switch first {
 	case "unsat":
 		res.Status = "unsat"
 	case "sat":
 		res.Status = "sat"
-		if i := strings.Index(text, "\n"); i >= 0 {
-			res.Model = text[i+1:]
+		if i := strings.Index(text, "sat\n"); i >= 0 {
+			res.Model = text[i+4:]
 		}
 	case "unknown":
 		res.Status = "unknown"
@@ -254,4 +294,62 @@ func firstLine(s string) string {
 		s = s[:i]
 	}
 	return " " + s
+}
+
+// replaceLits turns "text" tokens of a prelude module into string-literal constants.
+func replaceLits(text string, tr *fnTrans) string {
+	var sb strings.Builder
+	i := 0
+	for i < len(text) {
+		c := text[i]
+		if c == ';' {
+			j := i
+			for j < len(text) && text[j] != '\n' {
+				j++
+			}
+			sb.WriteString(text[i:j])
+			i = j
+			continue
+		}
+		if c == '"' {
+			j := i + 1
+			for j < len(text) && text[j] != '"' {
+				j++
+			}
+			sb.WriteString(tr.strLit(text[i+1 : j]))
+			i = j + 1
+			continue
+		}
+		sb.WriteByte(c)
+		i++
+	}
+	return sb.String()
+}
+
+func hasQuant(f *sx) bool {
+	if !f.isL {
+		return f.atom == "forall" || f.atom == "exists"
+	}
+	for _, c := range f.list {
+		if hasQuant(c) {
+			return true
+		}
+	}
+	return false
+}
+
+func stripQuantified(text string) string {
+	forms, err := readSx(text)
+	if err != nil {
+		return text
+	}
+	var sb strings.Builder
+	for _, f := range forms {
+		if f.isL && len(f.list) > 0 && f.list[0].atom == "assert" && hasQuant(f) {
+			continue
+		}
+		sb.WriteString(f.String())
+		sb.WriteString("\n")
+	}
+	return sb.String()
 }
